@@ -32,7 +32,7 @@ TIERS = {
               "explore": ["--plans", "6", "--dfs-max", "2", "--random", "0"],
               "explore_sim": ["--plans", "8", "--dfs-max", "2", "--random", "1"]},
     "thorough": {"cfgs": ["MC_Subshell_all2.cfg", "MC_Subshell_core3.cfg"], "sim": (2000, 4, 40),
-                 "explore": ["--plans", "12", "--dfs-max", "4", "--random", "2"],
+                 "explore": ["--plans", "12", "--dfs-max", "3", "--random", "1"],
                  "explore_sim": ["--plans", "16", "--dfs-max", "3", "--random", "2"]},
 }
 
